@@ -59,6 +59,7 @@ class Run(object):
         self.state_keys = set()
         self.single = False
         self.tolx = 1.0
+        self._cap_lists = {}
 
     # ------------------------------------------------------------------ helpers
     def _fail(self, prop, op, clause, detail, rec):
@@ -109,6 +110,20 @@ class Run(object):
         p = M.structural_problem(obj)
         if p is not None:
             self._fail("C03" if op.startswith("ortho") else self.prop, op, "consistent", {"what": what, "problem": p}, rec)
+
+    def _caps_arg(self, mr, as_numpy):
+        """A caller typically keeps ONE list of per-bond caps and passes it to call after call.  The harness does the
+        same: equal requests share one list object for the whole history, while the oracle always judges against the
+        caps written in the record -- so a routine that rewrites its max_rank argument in place shows up as a later
+        over-truncation (or cap violation) relative to what was requested."""
+        if not isinstance(mr, list):
+            return _mr(mr, as_numpy)
+        key = (tuple(mr), bool(as_numpy))
+        if key not in self._cap_lists:
+            self._cap_lists[key] = _mr(mr, as_numpy)
+        else:
+            self.probes["caps_list_object_reused"] += 1
+        return self._cap_lists[key]
 
     def _numerically_zero(self):
         """The tensor is zero up to rounding (norm below 1e-12 of the product of its core norms, e.g. after a truncation on
@@ -190,7 +205,7 @@ class Run(object):
         if thr != 0:
             kw["threshold"] = thr
         if mr is not None:
-            kw["max_rank"] = _mr(mr, a.get("np_int", False))
+            kw["max_rank"] = self._caps_arg(mr, a.get("np_int", False))
         if op == "ortho_left":
             if "start_index" in a:
                 kw["start_index"] = a["start_index"]
@@ -695,7 +710,12 @@ def _choose(rnd, run, cfg, prop):
             if c < 0.45 or (op != "ortho" and c < 0.6):
                 a["max_rank"] = rnd.randint(1, 4)
             elif c < 0.65:
-                a["max_rank"] = [1] + [rnd.choice((1, 2, 3, None)) for _ in range(d - 1)] + [1]
+                prev = getattr(run, "_last_caps", None)
+                if prev is not None and len(prev) == d + 1 and rnd.random() < 0.5:
+                    a["max_rank"] = list(prev)      # the caller reuses its list of caps
+                else:
+                    a["max_rank"] = [1] + [rnd.choice((1, 2, 3, 4, None)) for _ in range(d - 1)] + [1]
+                run._last_caps = list(a["max_rank"])
             elif c < 0.85:
                 a["threshold"] = rnd.choice((1e-12, 1e-8, 1e-3, 0.1, 0.5))
             else:
